@@ -13,28 +13,30 @@ open Gen Spec
 
 /-- the loop of `get_from_object_checked`: reader just after the opening quote of a member name;
     `ok v` = reader stands just after the colon of the matching member -/
-def getObjLoop (len : Nat) : Nat → Buf → Nat → List UInt8 → IRes
-  | 0, _, _, _ => .fuel
-  | f+1, buf, i, k =>
-    match decodeFrom false buf i with            -- parse_string_raw
-    | .err c p => .err c p
-    | .ok name e _ =>
-      match parseObjectClo buf e with
-      | .ok v =>
-        if name = k then .ok v
-        else match skipOne len (fuelFor buf) buf v with
-          | .ok e2 =>
-            match skipSpace buf e2 with
-            | none => .err .EofWhileParsing (eofIdx buf e2)
-            | some (c, j) =>
-              if c == 125 then .err .GetUnknownKeyInObject j
-              else if c == 44 then
-                match skipSpace buf j with
-                | some (c2, j2) => if c2 == 34 then getObjLoop len f buf j2 k else .err .ExpectObjectKeyOrEnd j2
-                | none => .err .ExpectObjectKeyOrEnd (eofIdx buf j)
-              else .err .ExpectedObjectCommaOrEnd j
-          | r => r
-      | r => r
+def getObjLoop (len : Nat) (buf : Buf) (k : List UInt8) (i : Nat) : IRes :=
+  match decodeFrom false buf i with            -- parse_string_raw
+  | .err c p => .err c p
+  | .ok name e _ =>
+    match parseObjectClo buf e with
+    | .ok v =>
+      if name = k then .ok v
+      else match skipOne len (fuelFor buf) buf v with
+        | .ok e2 =>
+          match skipSpace buf e2 with
+          | none => .err .EofWhileParsing (eofIdx buf e2)
+          | some (c, j) =>
+            if c == 125 then .err .GetUnknownKeyInObject j
+            else if c == 44 then
+              match skipSpace buf j with
+              | some (c2, j2) =>
+                if c2 == 34 then (if _hlt : i < j2 ∧ i < buf.size then getObjLoop len buf k j2 else .fuel)
+                else .err .ExpectObjectKeyOrEnd j2
+              | none => .err .ExpectObjectKeyOrEnd (eofIdx buf j)
+            else .err .ExpectedObjectCommaOrEnd j
+        | r => r
+    | r => r
+termination_by buf.size - i
+decreasing_by omega
 
 /-- `get_from_object_checked(key)`; `wrong` = the `peek_invalid_type` branch -/
 def getFromObjectChecked (len : Nat) (buf : Buf) (i : Nat) (k : List UInt8) : IRes :=
@@ -44,7 +46,7 @@ def getFromObjectChecked (len : Nat) (buf : Buf) (i : Nat) (k : List UInt8) : IR
     if c == 123 then
       match skipSpace buf j with
       | some (c2, j2) =>
-        if c2 == 34 then getObjLoop len (buf.size + 2) buf j2 k
+        if c2 == 34 then getObjLoop len buf k j2
         else if c2 == 125 then .err .GetInEmptyObject j2
         else .err .ExpectObjectKeyOrEnd j2
       | none => .err .ExpectObjectKeyOrEnd (eofIdx buf j)
@@ -179,6 +181,39 @@ def entryLazy (len : Nat) (buf : Buf) (i : Nat) (first : Bool) :
           | .fuel => .error (.Message, 0)
         | .err c p => .error (c, p)
         | .fuel => .error (.Message, 0)
+
+end Impl
+end Sonic
+
+namespace Sonic
+namespace Impl
+open Gen Spec
+
+/-- draining the checked array iterator (`next_elem_impl` until `None`/error, with the `ending`
+    latch): the spans yielded and whether the sequence ended cleanly.  The guard always holds (an
+    item is non-empty); it only makes termination evident. -/
+def drainArr (buf : Buf) (i : Nat) (first : Bool) : List (Nat × Nat) × Bool :=
+  match arrayElemLazy buf.size buf i first with
+  | .error _ => ([], false)
+  | .ok none => ([], true)
+  | .ok (some (s, e, nx)) =>
+    if _h : i < nx ∧ i < buf.size then
+      ((s, e) :: (drainArr buf nx false).1, (drainArr buf nx false).2)
+    else ([(s, e)], false)
+termination_by buf.size - i
+decreasing_by all_goals omega
+
+/-- draining the checked object iterator -/
+def drainObj (buf : Buf) (i : Nat) (first : Bool) : List (List UInt8 × Nat × Nat) × Bool :=
+  match entryLazy buf.size buf i first with
+  | .error _ => ([], false)
+  | .ok none => ([], true)
+  | .ok (some (k, s, e, nx)) =>
+    if _h : i < nx ∧ i < buf.size then
+      ((k, s, e) :: (drainObj buf nx false).1, (drainObj buf nx false).2)
+    else ([(k, s, e)], false)
+termination_by buf.size - i
+decreasing_by all_goals omega
 
 end Impl
 end Sonic
